@@ -981,7 +981,13 @@ class Interp:
         if st.cfg.get("ground") and T.strip_opt(d.ty).k in ("dict", "set") and not st.spec_depth:
             # model search: without the data-structure invariant the solver may choose a "ghost member" (membership true, size 0) for a
             # dictionary that is only ever written, and the store below would then not grow it
-            self.assume_dict_wf(d)
+            # (only for dictionaries that existed at entry: a record-like dictionary built by the code or a callee may have more
+            # than K literal keys, and the bounded invariant would make the path vacuous)
+            st.guards.append(smt.rid(d.t) < st.alloc_entry)
+            try:
+                self.assume_dict_wf(d)
+            finally:
+                st.guards.pop()
         r = smt.rid(d.t)
         has = z3.Select(st.arr("dhas"), r)
         was = z3.Select(has, k.t)
